@@ -101,7 +101,7 @@ CLAIMED["C07"] = dict(
 CLAIMED["C18"] = dict(
     text="Effect contracts: every listed const operation has an empty shared-write frame on every path (no write inside a marked const region to storage initialised "
          "before it; const inputs and globals of group functions and sparse routines never written), which implies race freedom and schedule independence by "
-         "non-interference. No schedule is explored. Found and repaired: SubManifold's mutable scratch member. BSpline, diff::dr, minimize, fit_* not covered.",
+         "non-interference. No schedule is explored. Found and repaired: SubManifold's mutable scratch member. Covered: group functions, SubManifold/AnyManifold/variant, Spline and BSpline evaluation, diff::dr with const arguments, sparse routines; minimize and fit_* not covered.",
     note="A5 non-interference argument; A6 irsx memory model; A8; first-use initialisation of function-local statics executed sequentially only.",
     tech=IRSX + "byte-exact written-cell sets inside marked const regions (effect contracts)", ref="4 C18")
 
@@ -168,8 +168,8 @@ CLAIMED["C14"] = dict(
          "inside every segment is (1, 0, +-1/R) or (1, 0, 0) (unit speed, curvature <= 1/R). fit_bspline: from the expressions extracted from fit_impl.hpp and the C13 "
          "contracts, t_min <= t_i <= t_max for all dt > 0. fit_spline's interpolation step (block extracted verbatim): exp(v_1)...exp(v_K) = g^-1 g_next for K = 3 on SE2 and "
          "K = 5 on vectors (bounded for K = 5, 6 on SE2/SO3). fit_spline_1d: bounded stand-in for the linear constraints. That each word reaches the target (tangent-circle geometry) and global minimality are checked only by a bounded "
-         "native stand-in against an independent brute-force evaluation. Found and repaired: spurious full turn for half-turn targets; un-pivoted KKT solve in fit_spline_1d. The rest of fit_spline "
-         "and reparameterize_spline are NOT decided.",
+         "native stand-in against an independent brute-force evaluation. Found and repaired: spurious full turn for half-turn targets; un-pivoted KKT solve in fit_spline_1d. The rest of fit_spline is "
+         "NOT decided; reparameterize_spline only by a bounded stand-in (monotone, onto, start speed) on Dubins curves.",
     note="A1; A2; A5 (arc length = radius x angle); A6 incl. z3 and must-fire extraction rules; A7 targets/radii sampled, paths discovered concolically; C12/C13 contracts used; "
          "std::ranges::minmax assumed; sparse linear solves of fit_spline(_1d) and the LP passes of reparameterize_spline are outside the executor's reach.",
     tech=IRSX + "structural identity + z3 implication from the compiled comparison chain (Dubins word selection), exact normal form (segment velocities), z3 over "
